@@ -227,7 +227,7 @@ pub fn run_shard<P: Property>(p: &P, tier: Tier, seed: u64, shard: usize, shards
                         if nontrivial {
                             let js = serde_json::to_string(&case).unwrap();
                             // distinct counting is capped per shard (memory); beyond the cap the count is a lower bound
-                            if hashes.borrow().len() < 300_000 && hashes.borrow_mut().insert(fnv(&js)) {
+                            if hashes.borrow().len() < 60_000 && hashes.borrow_mut().insert(fnv(&js)) {
                                 r.nontrivial += 1;
                                 if r.samples.len() < p.sample_limit() {
                                     r.samples.push(serde_json::to_value(&case).unwrap());
